@@ -38,7 +38,10 @@ def pt(draw, g, allow_identity=True):
 def cases(draw):
     kind = draw(st.sampled_from(KINDS))
     c = {"kind": kind, "comp": draw(st.booleans()), "sigs": draw(st.booleans()), "corrupt": draw(st.sampled_from(("none", "none", "offcurve", "subgroup", "plus_q", "junk", "form", "junk_first"))),
-         "which": draw(st.integers(0, 40)), "x": draw(c05.fe(1)), "bits": draw(st.integers(1, 7)), "gt": draw(st.integers(0, R - 1))}
+         "which": draw(st.integers(0, 40)), "x": draw(c05.fe(1)), "bits": draw(st.integers(1, 7)), "gt": draw(st.integers(0, R - 1)),
+         # receiving params / key objects: slot count recorded by set_length (the wrappers' protocol), or already right in a re-used object
+         # whose signature flag is stale (unmarshal itself has to take the flag from the buffer)
+         "preset": draw(st.integers(0, 3)) == 0}
     if kind == "params":
         n = draw(st.integers(0, 12))
         c["g2s"] = [draw(pt(2)) for _ in range(2)]
@@ -273,8 +276,17 @@ def _check(ctx, lib, W, c, obs=None):
         n1 = d.vf_wk_length_from(k, None, dbuf, len(data), 1 if comp else 0, 1)
         expect(n1 == nslots, sig_ + "/unmarshalled-length", lambda: "recovered %d slots, object has %d" % (n1, nslots))
         new = W.params_new(nslots) if kind == "params" else W.sk_new(nslots)
-        n2 = d.vf_wk_length_from(k, new, dbuf, len(data), 1 if comp else 0, 0)
-        expect(n2 == nslots and W.get(k, new, 7 if kind == "params" else 2) == nslots, sig_ + "/set-length", "set_length did not record the slot count")
+        if c.get("preset") and obs is None:
+            # a re-used object that already has the right slot count and the opposite signature flag; no set_length call
+            if kind == "params":
+                d.vf_wk_set(0, new, 6, 0, None, 0 if sigs else 1)
+            else:
+                d.vf_wk_set(2, new, 2, 0, None, nslots)
+                d.vf_wk_set(2, new, 3, 0, None, 0 if sigs else 1)
+            ctx.event("receiver-preset-length-stale-flag")
+        else:
+            n2 = d.vf_wk_length_from(k, new, dbuf, len(data), 1 if comp else 0, 0)
+            expect(n2 == nslots and W.get(k, new, 7 if kind == "params" else 2) == nslots, sig_ + "/set-length", "set_length did not record the slot count")
     elif iswk:
         new = W.blob(WKK[kind])
     else:
